@@ -55,6 +55,8 @@ Init == \E w \in Starts :
           /\ st = IF ss = <<>> THEN Empty ELSE ss[Len(ss)]
           /\ hist = [ops |-> Warm[w], preds |-> [i \in DOMAIN ss |-> Out(ss[i])], n |-> 0, done |-> FALSE]
           /\ viol = {}
+          /\ (Emit # "none" /\ ss # <<>> =>
+                PrintT(<<"SCRIPT", ToJson([ops |-> Warm[w], preds |-> [i \in DOMAIN ss |-> Out(ss[i])], n |-> 0])>>))
 
 Enabled(s) ==
   {Ix(r, v) : r \in s.A, v \in 1..MaxVersion}
